@@ -1522,7 +1522,13 @@ func (g *gen) bigPiece() {
 // noisePiece: material that moves line numbers but contains no probes.
 func (g *gen) noisePiece() {
 	g.feat("noise")
-	switch g.intn("noise", 0, 20) {
+	switch g.intn("noise", 0, 23) {
+	case 21: // comment tags closed with "-%>" (legal today: the dash is comment text), followed by blanks / CRLF
+		g.cur.write("<%# note -%> \t\nx<%# note2 -%>\r\n")
+	case 22:
+		g.cur.write("<%# -%>\n<%#- a -%>   \n\n")
+	case 23: // dashes and percent signs next to tag delimiters in text
+		g.cur.write("-%> - % > -<% let " + g.fresh("ms") + " = 1 %>-\n")
 	case 15: // escaped quotes AFTER newlines inside a double-quoted string, several of them
 		g.cur.write("<% let " + g.fresh("ms") + " = \"one\ntwo \\\" q1\nthree \\\" q2 \\\" q3\n\nfive\" %>")
 	case 16: // back-quoted string with quotes, backslashes and a tag-like run inside
